@@ -14,6 +14,7 @@ import (
 	"testing"
 
 	"github.com/ChrisTrenkamp/xsel"
+	"github.com/ChrisTrenkamp/xsel/store"
 	"pgregory.net/rapid"
 
 	"verif/xast"
@@ -77,6 +78,18 @@ func checkC14(c *c14Case) error {
 		cs.Variables = vars
 	}
 	node := func(i int) *xmodel.Node { return p.doc.All[i%len(p.doc.All)] }
+	// results are compared by position, so that the serial ones may come from another copy of the tree
+	snap := func(r xsel.Result) string {
+		if ns, ok := r.(xsel.NodeSet); ok {
+			var sb strings.Builder
+			sb.WriteString("nodes:")
+			for _, c := range ns {
+				fmt.Fprintf(&sb, "%d,", c.Pos())
+			}
+			return sb.String()
+		}
+		return snapshotResult(r)
+	}
 	// serial results first
 	serial := map[[2]int]string{}
 	for _, ops := range c.Ops {
@@ -88,11 +101,19 @@ func checkC14(c *c14Case) error {
 			if err != nil {
 				serial[op] = "error"
 			} else {
-				serial[op] = snapshotResult(r)
+				serial[op] = snap(r)
 			}
 		}
 	}
 	if c.Cold {
+		// lazily initialised state in the tree races on its first use as well: the goroutines get a copy of the
+		// document that no query has touched yet (the shared node-set variable stays bound to the first copy's
+		// nodes only when it is empty - otherwise the first copy is kept)
+		if len(shared) == 0 {
+			if p2, err := prepareDoc(c.Events); err == nil {
+				p = p2
+			}
+		}
 		// lazily initialised state in a compiled expression races on its first
 		// use: hand the goroutines expressions nobody has executed yet
 		for i, text := range c.Exprs {
@@ -121,7 +142,7 @@ func checkC14(c *c14Case) error {
 					r, err := safeExec(p.loc.ToCur[node(op[1])], exprs[op[0]%len(exprs)], apply)
 					got := "error"
 					if err == nil {
-						got = snapshotResult(r)
+						got = snap(r)
 					}
 					if got != serial[op] {
 						errs <- fmt.Errorf("goroutine %d: Exec(%q) from %s gave a different result concurrently than serially", gi, c.Exprs[op[0]%len(exprs)], node(op[1]).Ref())
@@ -242,6 +263,96 @@ func checkC14U(c *c14UCase) error {
 	return nil
 }
 
+// ---- concurrent parsing ----
+
+type c14PDoc struct {
+	Kind string `json:"kind"` // xml html json
+	Data []byte `json:"data"`
+}
+
+type c14PCase struct {
+	Docs    []c14PDoc `json:"docs"`
+	Threads int       `json:"threads"`
+}
+
+var c14P = reg("C14", "c14-parsers", checkC14P)
+
+// treeText renders a cursor tree by positions, kinds, names and values (no pointers).
+func treeText(root store.Cursor) string {
+	var sb strings.Builder
+	var walk func(c store.Cursor)
+	walk = func(c store.Cursor) {
+		fmt.Fprintf(&sb, "%d|%s;", c.Pos(), xmodel.DescribeCursor(c))
+		for _, x := range c.Namespaces() {
+			walk(x)
+		}
+		for _, x := range c.Attributes() {
+			walk(x)
+		}
+		for _, x := range c.Children() {
+			walk(x)
+		}
+	}
+	walk(root)
+	return sb.String()
+}
+
+func parseText(d c14PDoc) (out string) {
+	defer func() {
+		if r := recover(); r != nil {
+			out = fmt.Sprintf("panic: %v", r)
+		}
+	}()
+	var cur store.Cursor
+	var err error
+	switch d.Kind {
+	case "xml":
+		cur, err = xsel.ReadXml(bytes.NewReader(d.Data))
+	case "html":
+		cur, err = xsel.ReadHtml(bytes.NewReader(d.Data))
+	default:
+		cur, err = xsel.ReadJson(bytes.NewReader(d.Data))
+	}
+	if err != nil || cur == nil {
+		return "error"
+	}
+	return treeText(cur)
+}
+
+// checkC14P: documents parsed by several goroutines at once give the trees
+// they give when parsed one after another (and the race detector stays silent).
+func checkC14P(c *c14PCase) error {
+	noteCurrent("C14", "c14-parsers", c)
+	results := make([][]string, c.Threads)
+	var wg sync.WaitGroup
+	start := make(chan struct{})
+	for gi := 0; gi < c.Threads; gi++ {
+		wg.Add(1)
+		go func(gi int) {
+			defer wg.Done()
+			<-start
+			for k := range c.Docs {
+				results[gi] = append(results[gi], parseText(c.Docs[(k+gi)%len(c.Docs)]))
+			}
+		}(gi)
+	}
+	close(start)
+	wg.Wait()
+	st.Eval(c.Threads * len(c.Docs))
+	for k, d := range c.Docs {
+		want := parseText(d)
+		for gi := range results {
+			// goroutine gi parsed document k at step (k-gi) mod len
+			step := ((k-gi)%len(c.Docs) + len(c.Docs)) % len(c.Docs)
+			if results[gi][step] != want {
+				return fmt.Errorf("goroutine %d: the %s document %d parsed concurrently gives another tree than parsed alone:\n concurrent %s\n alone      %s", gi, d.Kind, k, clip(results[gi][step]), clip(want))
+			}
+		}
+	}
+	os.Remove(currentCaseFile("c14-parsers"))
+	return nil
+}
+
 // ---- CLI ----
 
 type c14CLICase struct {
@@ -250,6 +361,7 @@ type c14CLICase struct {
 	A     bool      `json:"a,omitempty"`
 	M     bool      `json:"m,omitempty"`
 	N     int       `json:"n"` // -c N
+	Extra []string  `json:"extra,omitempty"` // further flags: -u, -e name=value, -s prefix=uri, -v name=value, -t xml
 }
 
 func runCLI(bin, dir string, args []string) (string, string, int) {
@@ -289,6 +401,7 @@ func checkC14CLI(c *c14CLICase) error {
 	if c.M {
 		args = append(args, "-m")
 	}
+	args = append(args, c.Extra...)
 	noteCurrent("C14", "c14-cli", c)
 	out1, _, code1 := runCLI(bin, dir, append(append([]string{}, args...), "-c", "1", "."))
 	outN, errN, codeN := runCLI(bin, dir, append(append([]string{}, args...), "-c", fmt.Sprint(c.N), "."))
@@ -357,7 +470,7 @@ func clip(s string) string {
 func TestC14(t *testing.T) {
 	runWitnesses(t, "C14")
 	runProp(t, "library", 300, 20000, func(t *rapid.T) {
-		ev := xmodel.Gen(t, xmodel.GenCfg{MaxDepth: 3, MaxKids: 4, Names: []string{"a", "b", "c"}, Numeric: true})
+		ev := xmodel.Gen(t, xmodel.GenCfg{MaxDepth: 3, MaxKids: 4, Names: []string{"a", "b", "c"}, Numeric: true, Wide: true})
 		doc := xmodel.Build(ev)
 		elems, attrs, _ := docNames(doc)
 		g := &xast.G{T: t, Env: xast.GenEnv{ElemNames: queryable(elems), AttrNames: queryable(attrs), Prefixes: []string{"x", "y"}, NumVars: []string{"n"}, StrVars: []string{"s"}, NodeVars: []string{"v"}, NoLang: true}}
@@ -367,7 +480,7 @@ func TestC14(t *testing.T) {
 			"translate(string(//a), 'ab1', 'xyz')", "translate(string(//b), '12a', 'ba')", "translate('abcabc', 'abc', 'xyz')", "translate('abcabc', 'cba', '12')",
 			"substring(string(/), 2, 3)", "substring('abcdef', 3)", "substring-before('a-b-c', '-')", "substring-after(string(//a), '1')", "normalize-space(' a  b ')", "normalize-space(string(/))",
 			"concat('a', 'b', string(//a))", "concat(name(/*), '-', local-name(//b))", "string-length(string(/))", "string-length('é€')", "contains(string(/), '1')", "starts-with('abc', 'ab')",
-			"round(1.5) + floor(2.7) + ceiling(0.2)", "sum(//b) div count(//*)", "number(' 12 ') mod 5", "boolean(//a) and not(//nosuch)", "lang('en')", "namespace-uri(/*)", "name(//@*)",
+			"round(1.5) + floor(2.7) + ceiling(0.2)", "sum(//b) div count(//*)", "number(' 12 ') mod 5", "boolean(//a) and not(//nosuch)", "lang('en')", "count(//*[lang('en')])", "count(//node()[lang('de')])", "//*[@id][lang('en')]", "namespace-uri(/*)", "name(//@*)",
 			"string(//a[last()])", "count(//*[position() mod 2 = 1])", "local-name(//namespace::node()[1])", "string(1 div 3)", "string(123456789012)",
 			// deep and long expressions (whatever is counted per evaluation must be counted per evaluation)
 			strings.Repeat("(", 160) + "count(//a)" + strings.Repeat(")", 160), "1" + strings.Repeat(" + 1", 400), "//a" + strings.Repeat("[.]", 120), strings.Repeat("-", 300) + "1",
@@ -439,6 +552,16 @@ func TestC14(t *testing.T) {
 		}
 		c14U.run(t, c)
 	})
+	runProp(t, "parsers", 120, 8000, func(t *rapid.T) {
+		c := &c14PCase{Threads: rapid.IntRange(2, 12).Draw(t, "threads")}
+		for i, n := 0, rapid.IntRange(2, 8).Draw(t, "nDocs"); i < n; i++ {
+			kind := []string{"xml", "xml", "html", "json"}[rapid.IntRange(0, 3).Draw(t, "kind")]
+			c.Docs = append(c.Docs, c14PDoc{Kind: kind, Data: genCLIFileData(t, kind, rapid.IntRange(0, 7).Draw(t, "bad") == 0)})
+		}
+		st.Class(fmt.Sprintf("parsers threads=%d", c.Threads/4*4))
+		st.NonTrivial(fmt.Sprint("parsers", c.Threads, len(c.Docs), len(c.Docs[0].Data), len(c.Docs[1].Data)))
+		c14P.run(t, c)
+	})
 	runProp(t, "cli", 12, 400, func(t *rapid.T) {
 		c := &c14CLICase{N: []int{2, 4, 16}[rapid.IntRange(0, 2).Draw(t, "n")], A: rapid.Bool().Draw(t, "a"), M: rapid.IntRange(0, 2).Draw(t, "m") == 0}
 		nFiles := rapid.IntRange(10, 60).Draw(t, "nFiles")
@@ -467,7 +590,18 @@ func TestC14(t *testing.T) {
 			sb.WriteString("</big>")
 			c.Files = append(c.Files, cliFile{Kind: "file", Path: fmt.Sprintf("big/b%02d.xml", i), Data: []byte(sb.String())})
 		}
-		c.Expr = []string{"//*", "//text()", "//a", "//node()", "//*[text()]", "count(//*)"}[rapid.IntRange(0, 5).Draw(t, "expr")]
+		c.Expr = []string{"//*", "//text()", "//a", "//node()", "//*[text()]", "count(//*)", "//namespace::*", "//@*", "//*[lang('en')]", "//x:*", "//*[. = $val]"}[rapid.IntRange(0, 10).Draw(t, "expr")]
+		// every worker shares the flags' maps as well
+		if rapid.Bool().Draw(t, "u") {
+			c.Extra = append(c.Extra, "-u")
+		}
+		if rapid.Bool().Draw(t, "e") {
+			c.Extra = append(c.Extra, "-e", "company=ACME", "-e", "co=x")
+		}
+		c.Extra = append(c.Extra, "-s", "x=urn:x", "-v", "val=1")
+		if rapid.IntRange(0, 3).Draw(t, "forceXml") == 0 {
+			c.Extra = append(c.Extra, "-t", "xml")
+		}
 		st.Class(fmt.Sprintf("cli -c %d", c.N))
 		if few {
 			st.Class("cli fewer files than workers")
